@@ -15,7 +15,7 @@ Case forms (all JSON-able):
   'ood': 1 marks inputs outside the property's domain (NUL code points, invalid UTF-8, test set None): model vs
   implementation only.
 """
-import itertools, math
+import itertools, math, os
 from harness import hot
 
 PROP, NUM = 'C14', 14
@@ -56,7 +56,18 @@ RULE = ('exhaustive small scope: unique on every indexed-string column of length
         'alone, with a None entry, with a small value, inside 24 further members (narrow and wide), together with v, as '
         'list / set / tuple / ndarray (inferred dtype, every exact explicit integer dtype, object); all pairs at once; '
         'structured random mixtures; the 64-bit small scope (all columns <= 2 over 4 values x all 128 subsets of 7 test '
-        'values incl. None). HDF5-backed cases cost ~5 ms each, '
+        'values incl. None); (f) string VALUES that collide under a cheap hash (a defect that buckets values by a hash is '
+        'visible only on two different equal-length values with equal hash, and on a repeat of the first after the second): '
+        'every indexed-string column of length <= 3 (thorough: 4) over the 16 two-byte strings of {A,B,a,b} (collisions of '
+        'h*31+c, h*32+c, h*33+c, byte sum, byte xor) x flag combinations, isin for every (column <= 2, <= 1 test) and '
+        '(1 row, 2 ordered tests) over them; for ~90 (thorough ~190) hash families - h*m+c, (h*m)^c, (h^c)*m, LSB-first, '
+        'for 16 small multipliers, unbounded / & 0xFFFF / & 0xFF / % table size, byte sum / xor / sum of squares / adler32 / '
+        'rotate-xor / sorted bytes / product, first / last k bytes, first+last+length, sampled positions, length only, and, by '
+        'a birthday search over 2^19 strings, the 32-bit truncated products with FNV / sdbm / Knuth / LCG multipliers and '
+        'crc32 - the first colliding pair and triple over an alphabet with bytes 1, 31, 32, 33 apart (also of 2-byte UTF-8 '
+        'characters) are computed and planted: all columns <= 3 over the group + take-over patterns x 8 flags (ops), real '
+        'memory / HDF5 fields, fixed strings, isin with every subset of the group + stranger + None; every new literal of '
+        'the tree under test is used as multiplier, modulus, mask and prefix length. HDF5-backed cases cost ~5 ms each, '
         'hence the smaller bounds at that level. Non-trivial = reaches a planted feature.')
 EXHAUSTIVE = {'quick': True, 'thorough': True}
 TRUSTED = ['numpy sort/argsort of str arrays (code-point order, trailing NULs insignificant), np.unique, np.isin and '
@@ -366,6 +377,35 @@ def features(case, model):
         ds = list(dict.fromkeys(rows))
         if any(a != b and len(a) == len(b) for a in ds for b in ds): f.append('equal-length-different-bytes')
         if any(a != b and b[:len(a)] == a for a in ds for b in ds): f.append('prefix-pair')
+    if ft in ('istr', 'fstr') and len(set(rows)) <= 12 and max([len(r) for r in rows] + [0]) <= 16:
+        # equal-length distinct values that collide under a cheap hash; the first of them repeated after the second
+        bylen = {}
+        for r in dict.fromkeys(rows):
+            bylen.setdefault(len(r), []).append(r)
+        cand = [v for L_, v in bylen.items() if L_ and len(v) >= 2]
+        if cand:
+            first = {}
+            for i_, r in enumerate(rows):
+                first.setdefault(r, i_)
+                last_ = i_
+            lastpos = {r: i_ for i_, r in enumerate(rows)}
+            for hn, hfun in CORE_HASHES:
+                hit = rep = False
+                for v in cand:
+                    hv = {}
+                    for r in v:
+                        hv.setdefault(hfun(r), []).append(r)
+                    for grp in hv.values():
+                        if len(grp) >= 2:
+                            hit = True
+                            if any(first[a] < first[b] < lastpos[a] for a in grp for b in grp if a != b):
+                                rep = True
+                if hit:
+                    f.append('values-collide-under:' + hn)
+                if rep:
+                    f.append('collision-then-repeat-of-first:' + hn)
+    if case.get('hfam'):
+        f.append('hash-family:' + case['hfam'].split('+')[0].split(':')[0].rstrip('0123456789'))
     if case['op'] == 'unique':
         f.append('flags:%d%d%d' % tuple(int(bool(x)) for x in case['flags']))
         d, order = _first_occ_perm(rows)
@@ -1004,6 +1044,368 @@ def _gen_coercion(tier, rng):
                        'tests': list(tests), 'tkind': kind, 'via': 'module' if k % 4 == 0 else 'method'}
 
 
+# (f) string VALUES that collide under a cheap hash.  unique / isin must compare the byte strings themselves; an
+#     implementation that buckets the values by a hash (a dict keyed by a hash of the bytes, a table indexed by
+#     hash % K, a memo of row results) is correct only if every lookup ends in a byte comparison against EVERY value of
+#     the bucket (theorem unique_hash_bucket_independent).  A defect of this class is observable only on a column that
+#     holds two different values of the same length with the same hash -- and, when the later value takes over the
+#     bucket's slot, a repeat of the earlier one after it (x, y, x).  Random columns over a handful of words never
+#     contain such a pair, so the pairs are computed: for each cheap hash family the equal-length strings over a small
+#     byte alphabet whose members are 1, 31, 32 and 33 apart are bucketed by the hash and the first colliding pair /
+#     triple is taken; the 32-bit truncated products (FNV, sdbm, crc32 ...) get a birthday search over 8^6 strings.
+HASH_ALPHA = [65, 66, 97, 98, 96, 33]                   # A B a b ` !
+HASH_ALPHA8 = HASH_ALPHA + [67, 99]                      # + C c (birthday search: 8^6 strings)
+HASH_ALPHA2 = ['é', 'È', 'É', 'Ê', 'Ĉ', 'ĉ', 'Ċ', 'ĩ']   # C3A9 C388 C389 C38A C488 C489 C48A C4A9
+HASH_SMALL_MULTS = [31, 33, 32, 37, 17, 5, 7, 3, 2, 10, 16, 101, 127, 131, 256, 257]
+HASH_BIG_MULTS = [65599, 1000003, 16777619, 2654435761, 0x9E3779B1, 69069, 1103515245]
+HASH_MODULI = [7, 13, 31, 61, 64, 127, 128, 251, 256, 509, 1009, 1024, 4093, 4096, 8191, 65521, 65536]
+M32, M64 = 0xFFFFFFFF, 0xFFFFFFFFFFFFFFFF
+_hash_cache = {}
+
+
+def _h_poly(m, mask=None, h0=0):
+    def f(b):
+        h = h0
+        for c in b:
+            h = h * m + c
+            if mask is not None:
+                h &= mask
+        return h
+    return f
+
+
+def _h_polyx(m, mask, h0):
+    def f(b):
+        h = h0
+        for c in b:
+            h = ((h * m) ^ c) & mask
+        return h
+    return f
+
+
+def _h_mulx(m, mask, h0):           # FNV-1a style: xor, then multiply
+    def f(b):
+        h = h0
+        for c in b:
+            h = ((h ^ c) * m) & mask
+        return h
+    return f
+
+
+def _h_rpoly(m):                    # least significant byte first
+    def f(b):
+        h, p = 0, 1
+        for c in b:
+            h += c * p
+            p *= m
+        return h
+    return f
+
+
+def _h_xor(b):
+    h = 0
+    for c in b:
+        h ^= c
+    return h
+
+
+def _h_adler(b):
+    import zlib
+    return zlib.adler32(bytes(b))
+
+
+def _h_rot(b):                      # rotate-left-5 and xor (32 bit)
+    h = 0
+    for c in b:
+        h = (((h << 5) | (h >> 27)) & M32) ^ c
+    return h
+
+
+CORE_HASHES = [('poly31', _h_poly(31)), ('poly33', _h_poly(33)), ('poly32', _h_poly(32)), ('sum', sum), ('xor', _h_xor)]
+
+
+def _small_families(hot_small, big):
+    """[(name, hash function on byte tuples, core)]; for a core family (the common ones, and every one built from a literal
+    that is new in the tree under test) the quick tier also takes a colliding triple and strings of 2-byte characters"""
+    fam = []
+    hs = [k for k in hot_small if k >= 2]
+    lead = [31, 33, 32] + [k for k in hs if k not in (31, 33, 32)]
+    for m in HASH_SMALL_MULTS + [k for k in hs if k not in HASH_SMALL_MULTS]:
+        fam.append(('poly%d' % m, _h_poly(m), m in lead))
+        if big or m in lead:
+            fam.append(('poly%d&0xFFFF' % m, _h_poly(m, 0xFFFF), m in hs))
+            fam.append(('poly%d&0xFF' % m, _h_poly(m, 0xFF), m in hs))
+            fam.append(('rpoly%d' % m, _h_rpoly(m), m in hs))
+        if m in (31, 33) or m in hs:
+            for h0 in (0, 5381):
+                fam.append(('polyx%d/%d' % (m, h0), _h_polyx(m, M32, h0), m in hs))
+                fam.append(('mulx%d/%d' % (m, h0), _h_mulx(m, M32, h0), m in hs))
+    for K in (HASH_MODULI if big else [31, 64, 256, 1024, 65536]) + [k for k in hs if k not in HASH_MODULI]:
+        for m in (31, 33):
+            fam.append(('poly%d%%%d' % (m, K), (lambda g, K_: (lambda b: g(b) % K_))(_h_poly(m), K), K in hs))
+        fam.append(('sum%%%d' % K, (lambda K_: (lambda b: sum(b) % K_))(K), K in hs))
+    fam += [('sum', sum, True), ('xor', _h_xor, True), ('sum+xor', lambda b: (sum(b), _h_xor(b)), False),
+            ('sumsq', lambda b: sum(c * c for c in b), False), ('adler32', _h_adler, True), ('rotl5xor', _h_rot, False),
+            ('first+last+len', lambda b: (b[0], b[-1], len(b)), True), ('first2+last2', lambda b: (b[:2], b[-2:]), False),
+            ('first', lambda b: b[:1], True), ('first2', lambda b: b[:2], False), ('first3', lambda b: b[:3], False),
+            ('last', lambda b: b[-1:], True), ('last2', lambda b: b[-2:], False), ('last3', lambda b: b[-3:], False),
+            ('first+mid+last', lambda b: (b[0], b[len(b) // 2], b[-1]), False),
+            ('sorted-bytes', lambda b: tuple(sorted(b)), True), ('set-of-bytes', lambda b: tuple(sorted(set(b))), False),
+            ('product&M32', lambda b: math.prod(b) & M32, False), ('product+1', lambda b: math.prod(c + 1 for c in b), False)]
+    return fam
+
+
+def _pick(buckets, big):
+    """from {(len, hash): [strings in enumeration order]}: the first colliding pair at the smallest length that has one,
+    the first triple (thorough: two more pairs at other lengths)"""
+    out = []
+    multi = sorted((k[0], v[0], v) for k, v in buckets.items() if len(v) >= 2)
+    if not multi:
+        return out
+    out.append(tuple(multi[0][2][:2]))
+    tri = [v for _, _, v in multi if len(v) >= 3]
+    if tri:
+        out.append(tuple(tri[0][:3]))
+    if big:
+        out.append(tuple(multi[-1][2][-2:]))
+    return out
+
+
+def _birthday(hot_big, big):
+    """colliding pairs / triples of 6-byte strings under 32-bit truncated products (FNV, sdbm, Knuth, LCG multipliers, crc32,
+    every large literal that is new in the tree under test as multiplier / modulus / mask): numpy-vectorised hash of 2^19
+    pseudo-random printable strings (fixed seed), sorted, equal neighbours taken"""
+    import numpy as np, zlib
+    L, n = 6, 1 << 19
+    arr = np.random.RandomState(20261001).randint(33, 127, size=(n, L)).astype(np.uint64)
+    cols = [arr[:, j] for j in range(L)]
+
+    def string(i):
+        return tuple(int(c[i]) for c in cols)
+    fams = []
+    mults = HASH_BIG_MULTS + [k for k in hot_big if 2 <= k < 2 ** 64 and k not in HASH_BIG_MULTS]
+
+    def poly(m, mask):
+        h = np.zeros(n, dtype=np.uint64)
+        for c in cols:
+            h = (h * np.uint64(m) + c) & np.uint64(mask)
+        return h
+
+    def polyx(m, mask, h0):
+        h = np.full(n, h0, dtype=np.uint64)
+        for c in cols:
+            h = ((h * np.uint64(m)) ^ c) & np.uint64(mask)
+        return h
+
+    def mulx(m, mask, h0):
+        h = np.full(n, h0, dtype=np.uint64)
+        for c in cols:
+            h = ((h ^ c) * np.uint64(m)) & np.uint64(mask)
+        return h
+    for m in mults:
+        fams.append(('poly%d&M32' % m, lambda m=m: poly(m, M32)))
+        fams.append(('mulx%d&M32' % m, lambda m=m: mulx(m, M32, 2166136261)))
+        if big or m in hot_big:
+            fams.append(('polyx%d&M32' % m, lambda m=m: polyx(m, M32, 2166136261)))
+            fams.append(('poly%d>>32' % m, lambda m=m: poly(m, M64) >> np.uint64(32)))
+            fams.append(('mulx%d/0&M32' % m, lambda m=m: mulx(m, M32, 0)))
+    for m in (31, 33):
+        fams.append(('poly%d&M32' % m, lambda m=m: poly(m, M32)))
+        for K in [k for k in hot_big if 2 ** 16 <= k <= 2 ** 34]:
+            fams.append(('poly%d%%%d' % (m, K), lambda m=m, K=K: poly(m, M64) % np.uint64(K)))
+            fams.append(('poly%d&%d' % (m, K), lambda m=m, K=K: poly(m, M64) & np.uint64(K)))
+
+    def crc():
+        out = np.empty(n, dtype=np.uint64)
+        raw = arr.astype(np.uint8).tobytes()
+        for i in range(n):
+            out[i] = zlib.crc32(raw[i * L:(i + 1) * L])
+        return out
+    fams.append(('crc32', crc))
+    groups = []
+    for name, fh in fams:
+        h = fh()
+        order = np.argsort(h, kind='stable')
+        hs = h[order]
+        eq = [int(i) for i in np.nonzero(hs[1:] == hs[:-1])[0][:4000] if string(int(order[i])) != string(int(order[i + 1]))]
+        if not eq:
+            continue
+        got = [(string(int(order[eq[0]])), string(int(order[eq[0] + 1])))]
+        eqs = set(eq)
+        tri = [i for i in eq if i + 1 in eqs and len({string(int(order[i + d])) for d in range(3)}) == 3]
+        if tri and (big or 'M32' not in name):
+            got.append(tuple(string(int(order[tri[0] + d])) for d in range(3)))
+        elif len(eq) > 1 and big:
+            got.append((string(int(order[eq[-1]])), string(int(order[eq[-1] + 1]))))
+        for g in got:
+            groups.append((name, g))
+    return groups
+
+
+def _hash_groups(big):
+    """[(family names, (x, y[, z]))]: equal-length distinct byte strings (valid UTF-8) with equal hash"""
+    key = (big, tuple(hot.hot_sizes()), tuple(hot.big_sizes()))
+    if key in _hash_cache:
+        return _hash_cache[key]
+    hot_small = [k for k in hot.hot_sizes() if 2 <= k <= 6000]
+    hot_big = list(hot.big_sizes())
+    S1 = [t for L in range(1, 5) for t in itertools.product(HASH_ALPHA, repeat=L)]
+    A2 = [tuple(c.encode('utf-8')) for c in HASH_ALPHA2] + [(65,), (66,)]
+    S2 = [sum(t, ()) for L in range(1, 3) for t in itertools.product(A2, repeat=L)]
+    found = {}          # group -> [family names]
+
+    def add(name, g):
+        g = tuple(tuple(x) for x in g)
+        assert len(set(g)) == len(g) and len(set(len(x) for x in g)) == 1
+        found.setdefault(g, []).append(name)
+    for name, f, core in _small_families(hot_small, big):
+        for S, tag in ((S1, ''), (S2, ':utf8-2byte')):
+            if tag and not (big or core):
+                continue
+            buckets = {}
+            for t in S:
+                buckets.setdefault((len(t), f(t)), []).append(t)
+            picks = _pick(buckets, big)
+            for g in (picks if core else picks[:1] + (picks[-1:] if (big and len(picks) > 1) else [])):
+                add(name + tag, g)
+    # direct constructions: hashes that look at a prefix / suffix / sample of k bytes, at the length, at a product
+    ks = ([1, 2, 3, 4, 8, 16, 32, 64, 255, 256] if big else [1, 2, 4, 8, 16]) + [k for k in hot_small if k <= 2100]
+    for k in dict.fromkeys(ks):
+        add('prefix%d' % k, [(65,) * k + (97,), (65,) * k + (98,)] + ([(65,) * k + (66,)] if k <= 4 else []))
+        add('suffix%d' % k, [(97,) + (65,) * k, (98,) + (65,) * k] + ([(66,) + (65,) * k] if k <= 4 else []))
+        add('prefix%d+suffix%d' % (k, k), [(65,) * k + (97,) + (66,) * k, (65,) * k + (98,) + (66,) * k])
+    add('length', [(97,), (98,), (65,)])
+    add('length', [(195, 169), (97, 98), (98, 97)])
+    for n_ in ((5, 8, 9) if big else (5,)):
+        for pos in (1, n_ - 2):
+            add('sampled-positions', [tuple(97 if j == pos else 65 for j in range(n_)), tuple(98 if j == pos else 65 for j in range(n_))])
+    for n_ in (32, 64):
+        add('product&2^%d' % n_, [(66,) * n_, (98,) * n_, (66, 98) * (n_ // 2)])
+    for name, g in _birthday(hot_big, big):
+        add(name, g)
+    out = [(names, g) for g, names in found.items()]
+    for names, g in out:
+        for x in g:
+            bytes(x).decode('utf-8')          # every member is a valid string
+    _hash_cache[key] = out
+    return out
+
+
+def _seqs(vals, nmax):
+    for n in range(1, nmax + 1):
+        for c in itertools.product(vals, repeat=n):
+            yield list(c)
+
+
+def _gen_hash(tier, rng):
+    big = tier == 'thorough'
+    k = 0
+    # ---- exhaustive: every column of length <= 3 (thorough: 4) over the 16 two-byte strings of {A, B, a, b} (which hold
+    #      collisions of h*31+c, h*32+c, h*33+c, of the byte sum and of the byte xor); all 8 flag combinations for the
+    #      columns of length <= 2 and those with a repeated value, three (all, none, one rotating) for the others
+    P16 = [list(t) for t in itertools.product([65, 66, 97, 98], repeat=2)]
+    for n in range(1, 5 if big else 4):
+        for col in itertools.product(P16, repeat=n):
+            k += 1
+            rep = len(set(map(tuple, col))) < n
+            fls = FLAGS8 if (n <= 2 or (rep and n == 3) or (big and n == 3)) else \
+                (([1, 1, 1], [0, 0, 0], FLAGS8[1 + k % 6]) if n == 3 else (FLAGS8[k % 8],))
+            for fl in fls:
+                yield {'op': 'unique', 'ft': 'istr', 'level': 'ops', 'col': [list(c) for c in col], 'flags': fl}
+    # isin: (column <= 2, <= 1 test) and (column <= 1, 2 tests in both orders): a membership decided by the hash alone,
+    # a test that took over another test's slot, a row result remembered under the row's hash
+    for n in range(0, 3):
+        for col in itertools.product(P16, repeat=n):
+            for tests in [[]] + [[t] for t in P16]:
+                if n == 2 or tests:
+                    yield {'op': 'isin', 'ft': 'istr', 'level': 'ops', 'col': [list(c) for c in col], 'tests': tests,
+                           'tkind': 'list', 'via': 'method'}
+    for r in P16:
+        for t1 in P16:
+            for t2 in P16:
+                if t1 != t2:
+                    yield {'op': 'isin', 'ft': 'istr', 'level': 'ops', 'col': [r], 'tests': [t1, t2], 'tkind': 'list',
+                           'via': 'method'}
+    # ---- the computed colliding groups of every hash family
+    groups = _hash_groups(big)
+    for names, g in groups:
+        hf = names[0] + ('+%d' % (len(names) - 1) if len(names) > 1 else '')
+        G = [list(x) for x in g]                                  # byte strings
+        GC = [[ord(c) for c in bytes(x).decode('utf-8')] for x in g]   # the same strings as code points
+        L = len(G[0])
+        o, o2 = [99], [ord(c) for c in ('c' * L if all(ch < 128 for x in G for ch in x) else 'c')]
+        x, y = GC[0], GC[1]
+        z = GC[2] if len(GC) > 2 else None
+        short = L <= 40
+        # unique, operations level: every column over the group up to length 3 (quick, triples: 2), the take-over
+        # patterns with all members, mixtures with a string of another length and with a same-length stranger
+        cols = list(_seqs(GC, 3 if (short and (big or not z)) else 2))
+        if z:
+            cols += [[x, y, x], [y, x, y], [x, z, x], [z, y, z], [x, y, z, x], [x, y, z, y], [z, y, x, z, y, x], [x, y, x, z, x]]
+        cols += [[o, x, y, x], [x, y, o2, x, y, o2], [y, x, x, y, x]]
+        if big:
+            cols += [[x, o, y, o, x, y], [o2, y, x, y, o2, x], [x, y] * 3 + [x]]
+        for col in cols:
+            for fl in (FLAGS8 if short else ([1, 1, 1], [0, 0, 0], FLAGS8[1 + k % 6])):
+                yield {'op': 'unique', 'ft': 'istr', 'level': 'ops', 'col': col, 'flags': fl, 'hfam': hf}
+            k += 1
+        # through real fields (memory- and HDF5-backed), and as fixed strings
+        fcols = [[x, y, x], [y, x, y, y, o]] + ([[x, y, z, x]] if z else []) + ([[x, y, y, x, o]] if big else [])
+        bx, by = G[0], G[1]
+        bz = G[2] if z else None
+        bcols = [[bx, by, bx], [by, bx, [99], by]] + ([[bx, by, bz, bx]] if z else []) + ([[bx, by, by, bx]] if big else [])
+        for ft, cs in (('istr', fcols), ('fstr', bcols)):
+            for col in cs:
+                for fl in (FLAGS8 if big else ([1, 1, 1], [0, 0, 0], FLAGS8[1 + k % 6])):
+                    k += 1
+                    c = {'op': 'unique', 'ft': ft, 'level': 'mem' if (k % 3 or not short) else 'h5', 'col': col, 'flags': fl, 'hfam': hf}
+                    if ft == 'fstr':
+                        c['strlen'] = L
+                    yield c
+        # isin: columns over the group, tests = every subset of the group + a stranger + None, in both orders
+        tp = GC + [o2, None]
+        subs = []
+        for kk in range(0, len(tp) + 1):
+            for sub in itertools.combinations(range(len(tp)), kk):
+                subs.append([tp[j] for j in sub])
+        icols = (list(_seqs(GC, 2)) + [[x, y, x], [y, x, y], [x, y, x, o2], [o2, y, x]] if big else [[x], [y], [x, y], [y, x], [x, y, x]]) \
+            + ([[x, y, z, x]] if z else [])
+        if not short:
+            icols = icols[:6]
+        for col in icols:
+            for sub in subs:
+                k += 1
+                t = list(sub) if k % 2 else list(sub)[::-1]
+                yield {'op': 'isin', 'ft': 'istr', 'level': 'ops', 'col': col, 'tests': t, 'tkind': 'list', 'via': 'method', 'hfam': hf}
+                if k % 7 == 0:
+                    yield {'op': 'isin', 'ft': 'istr', 'level': 'mem' if k % 3 else 'h5', 'col': col, 'tests': t,
+                           'tkind': KINDS4[k % 4], 'via': 'module' if k % 4 == 0 else 'method', 'hfam': hf}
+        btp = G + [None]
+        for col in ([bx, by, bx], [by, bx]) + (([bx], [by]) if big else ()) + (([bx, by, bz],) if z else ()):
+            for kk in range(1, len(btp) + 1):
+                for sub in itertools.combinations(range(len(btp)), kk):
+                    k += 1
+                    t = [btp[j] for j in sub]
+                    if k % 2:
+                        t = t[::-1]
+                    yield {'op': 'isin', 'ft': 'fstr', 'level': 'mem' if k % 3 else 'h5', 'col': col, 'tests': t,
+                           'tkind': KINDS4[k % 4], 'via': 'module' if k % 4 == 0 else 'method', 'strlen': L, 'hfam': hf}
+    # ---- structured random: several groups in one column, members repeated after their partners
+    pool = [g for _, g in groups if len(g[0]) <= 40]
+    for _ in range((3000 if big else 300) * (3 if hot.changed() else 1)):
+        gs = rng.sample(pool, rng.randint(1, 3))
+        vals = [[ord(c) for c in bytes(x_).decode('utf-8')] for g in gs for x_ in g] + [[99], []]
+        col = [rng.choice(vals) for _ in range(rng.randint(3, 12))]
+        level = rng.choice(['ops', 'ops', 'mem', 'h5'])
+        if rng.random() < 0.6:
+            yield {'op': 'unique', 'ft': 'istr', 'level': level, 'col': col, 'flags': rng.choice(FLAGS8), 'hfam': 'random-mix'}
+        else:
+            tests = rng.sample(vals, rng.randint(1, len(vals) - 1)) + [None] * rng.choice([0, 0, 1])
+            yield {'op': 'isin', 'ft': 'istr', 'level': level, 'col': col, 'tests': tests,
+                   'tkind': 'list' if level == 'ops' else rng.choice(KINDS4),
+                   'via': 'method' if level == 'ops' else rng.choice(['method', 'module']), 'hfam': 'random-mix'}
+
+
 def gen(tier, rng):
     """small scope + malformed stream, then the regions beyond it; the (model-)expensive region cases are spread evenly
     over the sequence because the model shards are contiguous slices of it."""
@@ -1012,6 +1414,8 @@ def gen(tier, rng):
     for c in _gen_regions(tier, rng):
         (heavy if _weight(c) > 600 else light).append(c)
     light += list(_gen_coercion(tier, rng))
+    if not os.environ.get('VERIF_C14_NOHASH'):      # (measurement switch: the tier without region (f))
+        light += list(_gen_hash(tier, rng))
     base += light
     if not heavy:
         for c in base:
